@@ -141,7 +141,7 @@ def make_sino(kind, A, N, seed, thetas=None):
     """[A, N] float32 sinogram"""
     from qv.prng import Rng
     r = Rng(seed)
-    if kind == "random":
+    if kind == "random" or (kind == "radon" and N < 2):      # scikit-image's radon itself fails for a 1 x 1 image
         s = np.array([[r.uniform(-1, 1) for _ in range(N)] for _ in range(A)])
     elif kind == "int":
         s = np.array([[float(r.randint(-4, 8)) for _ in range(N)] for _ in range(A)])
@@ -175,7 +175,39 @@ def _torch():
 
 
 LAYOUTS = ["contig", "transposed", "permuted", "strided", "f64", "f64-transposed"]
-THETA_LAYOUTS = ["f32", "f64", "strided"]
+THETA_LAYOUTS = ["f32", "f64", "strided", "i64"]
+FORMS = ["kw", "min", "pos"]     # how the public function is called: every argument by keyword / every argument that has its
+#                                  documented default omitted / positionally in the documented order
+DEVICES = [None, "cpu", "torch.device"]
+
+_MOD = [None]        # the module instance under test (None: the imported quantem.tomography.radon.radon)
+_FRESH = [0]
+
+
+def radon_mod():
+    if _MOD[0] is not None:
+        return _MOD[0]
+    import quantem.tomography.radon.radon as m
+    return m
+
+
+def fresh_module():
+    """a NEW instance of the module under test, executed from the same source file: its own module-level state (caches,
+    scratch buffers, registries).  Used (a) to start every call history from the initial state, so that a history is
+    reproducible from its description alone, and (b) as the history-free reference for a single call.  None if the
+    source cannot be executed on its own (then the history streams say so and use the imported module)."""
+    import importlib.util
+    import quantem.tomography.radon.radon as real
+    try:
+        _FRESH[0] += 1
+        spec = importlib.util.spec_from_file_location(f"quantem.tomography.radon._qv_fresh_{_FRESH[0]}", real.__file__)
+        mod = importlib.util.module_from_spec(spec)
+        spec.loader.exec_module(mod)
+        for fn in ("radon_torch", "iradon_torch", "get_fourier_filter_torch"):
+            getattr(mod, fn)
+        return mod
+    except Exception:  # noqa
+        return None
 
 
 def to_layout(arr, layout):
@@ -206,6 +238,8 @@ def to_layout(arr, layout):
 
 def theta_tensor(thetas, layout="f32"):
     torch = _torch()
+    if layout == "i64" and all(float(t).is_integer() for t in thetas):
+        return torch.tensor([int(t) for t in thetas], dtype=torch.int64)     # as the default torch.arange(180)
     if layout == "f64":
         return torch.tensor(thetas, dtype=torch.float64)
     if layout == "strided":
@@ -215,9 +249,44 @@ def theta_tensor(thetas, layout="f32"):
     return torch.tensor(thetas, dtype=torch.float32)
 
 
-def t_radon(imgs, thetas, layout="contig", theta_layout="f32"):
-    from quantem.tomography.radon.radon import radon_torch
-    out = radon_torch(to_layout(imgs, layout), theta=theta_tensor(thetas, theta_layout))
+def device_arg(device):
+    return _torch().device("cpu") if device == "torch.device" else device
+
+
+def call_form(fn, form, spec):
+    """call `fn` with the arguments `spec` = [(name, value, documented_default_or_NOARG)] in documented order:
+    'kw' every argument by keyword, 'min' omitting every argument equal to its documented default (so the defaults of the
+    function under test decide), 'pos' positionally"""
+    if form == "pos":
+        return fn(*[v for _n, v, _d in spec])
+    if form == "min":
+        first = spec[0]
+        kw = {n: v for n, v, d in spec[1:] if not (d is not NOARG and (v is d or (isinstance(v, (str, bool, int)) and v == d and type(v) is type(d))))}
+        return fn(first[1], **kw)
+    return fn(spec[0][1], **{n: v for n, v, _d in spec[1:]})
+
+
+class _NoArg:
+    pass
+
+
+NOARG = _NoArg()
+
+# the documented interface (scikit-image's for the shared arguments): name, default
+RADON_DEFAULTS = {"theta": None, "device": None}
+IRADON_DEFAULTS = {"theta": None, "output_size": None, "filter_name": "ramp", "circle": True, "device": None}
+FILTER_DEFAULTS = {"filter_name": "ramp", "device": None}
+
+
+def t_radon_raw(imgs_t, theta_t, form="kw", device=None):
+    """radon_torch on tensors as given; returns the output tensor"""
+    spec = [("images", imgs_t, NOARG), ("theta", theta_t, None), ("device", device_arg(device), None)]
+    return call_form(radon_mod().radon_torch, form, spec)
+
+
+def t_radon(imgs, thetas, layout="contig", theta_layout="f32", form="kw", device=None):
+    th = None if thetas is None else theta_tensor(thetas, theta_layout)
+    out = t_radon_raw(to_layout(imgs, layout), th, form, device)
     return out.detach().cpu().numpy().astype(np.float64)
 
 
@@ -225,12 +294,19 @@ def s_radon(img, thetas):
     from skimage.transform import radon
     with warnings.catch_warnings():
         warnings.simplefilter("ignore")
-        return radon(np.asarray(img, dtype=np.float64), theta=np.asarray(thetas, dtype=np.float64), circle=True).T  # [A, N]
+        th = None if thetas is None else np.asarray(thetas, dtype=np.float64)
+        return radon(np.asarray(img, dtype=np.float64), theta=th, circle=True).T  # [A, N]
 
 
-def t_filter(size, name):
-    from quantem.tomography.radon.radon import get_fourier_filter_torch
-    return get_fourier_filter_torch(size, name).detach().cpu().numpy().astype(np.float64).ravel()
+def t_filter_raw(size, name, form="kw", device=None, dtype=None):
+    spec = [("size", size, NOARG), ("filter_name", name, "ramp"), ("device", device_arg(device), None)]
+    if dtype is not None:
+        spec.append(("dtype", getattr(_torch(), dtype), NOARG))
+    return call_form(radon_mod().get_fourier_filter_torch, form, spec)
+
+
+def t_filter(size, name, form="kw", device=None, dtype=None):
+    return t_filter_raw(size, name, form, device, dtype).detach().cpu().numpy().astype(np.float64).ravel()
 
 
 def s_filter(size, name):
@@ -238,10 +314,15 @@ def s_filter(size, name):
     return np.asarray(_get_fourier_filter(size, name), dtype=np.float64).ravel()
 
 
-def t_iradon(sinos, thetas, filt, circle, out_size=None, layout="contig", theta_layout="f32"):
-    from quantem.tomography.radon.radon import iradon_torch
+def t_iradon_raw(sinos_t, theta_t, filt, circle, out_size=None, form="kw", device=None):
+    spec = [("sinograms", sinos_t, NOARG), ("theta", theta_t, None), ("output_size", out_size, None),
+            ("filter_name", filt, "ramp"), ("circle", circle, True), ("device", device_arg(device), None)]
+    return call_form(radon_mod().iradon_torch, form, spec)
+
+
+def t_iradon(sinos, thetas, filt, circle, out_size=None, layout="contig", theta_layout="f32", form="kw", device=None):
     th = None if thetas is None else theta_tensor(thetas, theta_layout)
-    out = iradon_torch(to_layout(sinos, layout), theta=th, output_size=out_size, filter_name=filt, circle=circle)
+    out = t_iradon_raw(to_layout(sinos, layout), th, filt, circle, out_size, form, device)
     return out.detach().cpu().numpy().astype(np.float64)
 
 
@@ -330,6 +411,12 @@ class Model:
             return r
         return unbits(r["ok"], (size,))
 
+    def filt_token(self, alg, size, token):
+        r = self.ask({"op": "filter", "alg": alg, "size": size, "name": token})
+        if "err" in r:
+            return r
+        return unbits(r["ok"], (size,))
+
     def iradon(self, alg, sino, thetas, filt, circle, out=None):
         A, N = sino.shape
         r = self.ask({"op": "iradon", "alg": alg, "n": N, "a": A, "sino": bits(sino),
@@ -340,9 +427,34 @@ class Model:
         m = int(r["size"])
         return unbits(r["ok"], (m, m))
 
+    def radon_rect(self, alg, img, thetas):
+        """any H x W image, theta list or None (the default arange(180)); alg 'sk' gets the image scikit-image gets"""
+        H, W = img.shape
+        r = self.ask({"op": "radon_rect", "alg": alg, "h": H, "w": W, "img": bits(img), "theta": None if thetas is None else bits(thetas)})
+        return unbits(r["ok"], (int(r["rows"]), min(H, W)))
+
+    def iradon_e(self, alg, sino, thetas, token, circle, out=None):
+        """the call as made: raw filter token, theta of any length or None, optional output size -> array or {'err': class}"""
+        A, N = sino.shape
+        r = self.ask({"op": "iradon_e", "alg": alg, "n": N, "sino": bits(sino), "theta": None if thetas is None else bits(thetas),
+                      "filter": token, "circle": bool(circle), "out": out})
+        if "err" in r:
+            return r
+        m = int(r["size"])
+        return unbits(r["ok"], (m, m))
+
     def close(self):
         if self.drv is not None:
             self.drv.close()
+
+
+def name_token(name):
+    """the filter argument as the model driver reads it: 'none' is Python None; every other value is looked up as a name"""
+    if name is None:
+        return "none"
+    if isinstance(name, str):
+        return "none-as-a-string" if name == "none" else name
+    return f"<{type(name).__name__}:{name!r}>"
 
 
 # ----------------------------------------------------------------------------------------------
@@ -357,9 +469,12 @@ def case_radon(ctx, model, case, with_model=True):
     N, kind, seeds, thetas = case["N"], case["img"], case["seeds"], case["thetas"]
     masked = case.get("masked", True)
     layout, tlay = case.get("layout", "contig"), case.get("theta_layout", "f32")
+    form, device = case.get("form", "kw"), case.get("device")
     imgs = [make_image(kind, N, s, masked=masked) for s in seeds]
     B = len(imgs)
     ctx.count()
+    ctx.dist[f"radon:call-form={form}"] += 1
+    ctx.dist[f"radon:device-arg={device}"] += 1
     ctx.dist[f"radon:layout={layout}"] += 1
     ctx.dist[f"radon:theta-layout={tlay}"] += 1
     ctx.dist[f"radon:N={N}"] += 1
@@ -372,7 +487,7 @@ def case_radon(ctx, model, case, with_model=True):
     # --- real torch, batched call (B == 1: a 2-D tensor half of the time)
     arr = np.stack(imgs) if (B > 1 or case.get("keepdim", False)) else imgs[0]
     try:
-        tb = t_radon(arr, thetas, layout, tlay)          # [B, A, N] or [A, N] when B == 1
+        tb = t_radon(arr, thetas, layout, tlay, form, device)          # [B, A, N] or [A, N] when B == 1
     except Exception as e:  # noqa
         key = (f"radon-raises-{parity(N)}-size" if layout == "contig" and tlay == "f32" else
                ("radon-float64-image" if layout.startswith("f64") else f"radon-raises-layout-{layout}-theta-{tlay}"))
@@ -394,14 +509,14 @@ def case_radon(ctx, model, case, with_model=True):
             ctx.pred_fail(f"radon-{parity(N)}-size", f"radon_torch differs from skimage.transform.radon(circle=True) by {d:.3g} "
                           f"(tolerance {TOL_PRED * scale(ref):.3g})", dict(case, image_index=b), observed=worst(tb[b], ref), required="agreement")
         # (2) batched = per-image, and the result depends only on the values (not on memory layout / dtype class)
-        if B > 1 or layout != "contig" or tlay != "f32":
-            single = t_radon(img, thetas)                 # contiguous float32 2-D call
+        if B > 1 or layout != "contig" or tlay != "f32" or form != "kw" or device is not None:
+            single = t_radon(img, thetas)                 # contiguous float32 2-D call, every argument by keyword
             db = maxdiff(tb[b], single)
             tolb = TOL_BATCH if not (layout.startswith("f64") or tlay == "f64") else TOL_PRED
             ctx.stat_max("radon batched/layout-vs-single-contiguous rel", db / scale(single))
             if db > tolb * scale(single):
-                key = "radon-batch" if layout == "contig" and tlay == "f32" else "radon-layout"
-                ctx.pred_fail(key, f"radon_torch on a {layout} input (batch {B}, theta {tlay}) differs from the per-image call on "
+                key = ("radon-batch" if B > 1 else "radon-call-form") if layout == "contig" and tlay == "f32" else "radon-layout"
+                ctx.pred_fail(key, f"radon_torch on a {layout} input (batch {B}, theta {tlay}, call form {form}, device argument {device}) differs from the per-image call on "
                               f"contiguous float32 tensors by {db:.3g}", dict(case, image_index=b), observed=worst(tb[b], single), required="equal")
         # (3) correspondence with the model (first image only: cost)
         if with_model and model.drv is not None and b == 0:
@@ -467,32 +582,38 @@ def case_proj0(ctx, model, case):
 
 def case_filter(ctx, model, case):
     size, name = case["size"], case["name"]
+    form, device, dtype = case.get("form", "kw"), case.get("device"), case.get("dtype")
+    known = name is None or (isinstance(name, str) and name in FILTERS)
     ctx.count()
-    ctx.dist[f"filter:{name}"] += 1
-    ctx.dist[f"filter:size-bucket={'odd' if size % 2 else ('<=32' if size <= 32 else ('64/128/256' if size in (64, 128, 256) else 'other-even'))}"] += 1
+    ctx.dist[f"filter:{name if known else 'unknown-name'}"] += 1
+    ctx.dist[f"filter:call-form={form}"] += 1
+    ctx.dist[f"filter:dtype-arg={dtype}"] += 1
+    ctx.dist[f"filter:size-bucket={'zero' if size == 0 else ('odd' if size % 2 else ('<=32' if size <= 32 else ('64/128/256' if size in (64, 128, 256) else 'other-even')))}"] += 1
     try:
-        tf = t_filter(size, name)
+        tf = t_filter(size, name, form, device, dtype)
     except Exception as e:  # noqa
         tf = {"err": err_name(e)}
-    if size % 2 == 1:
-        # error branch (outside the property: filter sizes are even). The port rejects odd sizes explicitly; scikit-image fails
-        # implicitly (its float-bounds `n` array does not broadcast into f[1::2]) except for size 1. Both models must reproduce that.
+    if size % 2 == 1 or size == 0 or not known:
+        # error branches (outside the property: filter sizes are even >= 2, names are the six).  The port rejects odd sizes and
+        # unknown names explicitly and size 0 in torch.arange; scikit-image fails implicitly for odd sizes (its float-bounds `n`
+        # array does not broadcast into f[1::2]) except size 1, raises IndexError for size 0, and its private helper returns the
+        # ramp for an unknown name (the name check is in iradon).  Both models must reproduce their side.
         try:
             sf = s_filter(size, name)
         except Exception as e:  # noqa
             sf = {"err": err_name(e)}
-        ctx.dist[f"filter-odd:skimage={'err' if isinstance(sf, dict) else 'returns'}"] += 1
+        ctx.dist[f"filter-rejected:port={tf['err'] if isinstance(tf, dict) else 'returns'},skimage={sf['err'] if isinstance(sf, dict) else 'returns'}"] += 1
         if model.drv is not None:
-            mf = model.filt("torch", size, name)
+            mf = model.filt_token("torch", size, name_token(name))
             if not (isinstance(mf, dict) and isinstance(tf, dict) and mf.get("err") == tf.get("err")):
                 ctx.disagree("filterTorch-error", case, mf if isinstance(mf, dict) else "array", tf if isinstance(tf, dict) else "array")
-            ms = model.filt("sk", size, name)
+            ms = model.filt_token("sk", size, name_token(name))
             if isinstance(ms, dict) != isinstance(sf, dict) or (isinstance(ms, dict) and ms.get("err") != sf.get("err")):
                 ctx.disagree("filterSk-odd-size", case, ms if isinstance(ms, dict) else "array", sf if isinstance(sf, dict) else "array")
             elif not isinstance(ms, dict) and maxdiff(sf, ms) > TOL64 * scale(ms):
                 ctx.disagree("filterSk-odd-size", case, *views(sf, ms))
         return
-    ctx.mark(("filter", size, name))
+    ctx.mark(("filter", size, name, form, dtype))
     ref = s_filter(size, name)
     if isinstance(tf, dict):
         ctx.pred_fail(f"filter-{name}", f"get_fourier_filter_torch raised {tf['err']}", case, observed=tf, required="a filter")
@@ -500,8 +621,8 @@ def case_filter(ctx, model, case):
     d = maxdiff(tf, ref)
     ctx.stat_max(f"filter torch-vs-skimage abs ({name})", d)
     if d > TOL_FILTER * scale(ref):
-        ctx.pred_fail(f"filter-{name}", f"get_fourier_filter_torch({size}, {name!r}) differs from skimage _get_fourier_filter by {d:.3g}",
-                      case, observed=worst(tf, ref), required="agreement")
+        ctx.pred_fail(f"filter-{name}", f"get_fourier_filter_torch({size}, {name!r}) [call form {form}, dtype argument {dtype}] differs from "
+                      f"skimage _get_fourier_filter by {d:.3g}", case, observed=worst(tf, ref), required="agreement")
     if model.drv is not None and case.get("model", True):
         mt = model.filt("torch", size, name)
         ms = model.filt("sk", size, name)
@@ -514,6 +635,70 @@ def case_filter(ctx, model, case):
         if ds > TOL64 * scale(ms):
             ctx.disagree("filterSk", case, *views(ref, ms), note=f"maxdiff {ds:.3g}")
     ctx.sample({"stream": "filter", **case}, limit=5)
+
+
+def disc_rect(H, W):
+    y, x = np.mgrid[:H, :W]
+    r = min(H, W) // 2
+    return ((x - W // 2) ** 2 + (y - H // 2) ** 2) <= r * r
+
+
+def make_rect(kind, H, W, seed):
+    """float32 H x W image, non-zero outside the disc too"""
+    from qv.prng import Rng
+    r = Rng(seed)
+    if kind == "int":
+        img = np.array([[float(r.randint(0, 8)) for _ in range(W)] for _ in range(H)])
+    elif kind == "ones":
+        img = np.ones((H, W))
+    elif kind == "ramp":
+        y, x = np.mgrid[:H, :W]
+        img = (1.0 + x + 2.0 * y) / 4.0
+    else:
+        img = np.array([[r.random() for _ in range(W)] for _ in range(H)])
+    return img.astype(np.float32)
+
+
+def case_radon_rect(ctx, model, case, with_model=True):
+    """radon_torch on an image of ANY shape H x W (mask on the full grid, crop to the inscribed square) and/or WITHOUT theta
+    (the default 180 whole degrees): vs skimage.radon of the disc-masked image (scikit-image does the same crop), vs the model"""
+    H, W, kind, seed, thetas = case["H"], case["W"], case["img"], case["seed"], case["thetas"]
+    form, device = case.get("form", "kw"), case.get("device")
+    img = make_rect(kind, H, W, seed)
+    N = min(H, W)
+    ctx.count()
+    ctx.dist[f"radon-rect:shape={'square' if H == W else ('tall' if H > W else 'wide')},excess={'even' if abs(H - W) % 2 == 0 else 'odd'},N={parity(N)}"] += 1
+    ctx.dist[f"radon-rect:theta={'default' if thetas is None else 'given'}"] += 1
+    ctx.mark(("radon-rect", H, W, kind, thetas is None, form))
+    key = "radon-default-theta" if thetas is None and H == W else "radon-nonsquare"
+    try:
+        got = t_radon(img, thetas, "contig", case.get("theta_layout", "f32"), form, device)
+    except Exception as e:  # noqa
+        ctx.pred_fail(key, f"radon_torch raised {err_name(e)} on a {H} x {W} image: {str(e)[:160]}", case, observed=err_name(e), required="a sinogram")
+        return
+    dimg = (img * disc_rect(H, W)).astype(np.float64)
+    ref = s_radon(dimg, thetas)
+    if got.shape != ref.shape:
+        ctx.pred_fail("radon-shape", f"radon_torch output shape on a {H} x {W} image", case, observed=list(got.shape), required=list(ref.shape))
+        return
+    d = maxdiff(got, ref)
+    ctx.stat_max("radon-rect torch-vs-skimage rel", d / scale(ref))
+    if d > TOL_PRED * scale(ref):
+        ctx.pred_fail(key, f"radon_torch on a {H} x {W} image ({'default' if thetas is None else 'given'} angles) differs from "
+                      f"skimage.transform.radon(circle=True) of the disc-masked image by {d:.3g} (tolerance {TOL_PRED * scale(ref):.3g})",
+                      case, observed=worst(got, ref), required="agreement")
+    if with_model and model.drv is not None:
+        mt = model.radon_rect("torch", img.astype(np.float64), thetas)
+        ms = model.radon_rect("sk", dimg, thetas)
+        ctx.dist["radon-rect:model-compared"] += 1
+        dt, ds = maxdiff(got, mt), maxdiff(ref, ms)
+        ctx.stat_max("radon-rect model-vs-torch rel", dt / scale(mt))
+        ctx.stat_max("radon-rect model-vs-skimage rel", ds / scale(ms))
+        if dt > TOL32 * scale(mt):
+            ctx.disagree("radonTorchRect", case, *views(got, mt), note=f"maxdiff {dt:.3g}")
+        if ds > TOL64 * scale(ms):
+            ctx.disagree("radonSkRect", case, *views(ref, ms), note=f"maxdiff {ds:.3g}")
+    ctx.sample({"stream": "radon-rect", **case}, limit=8)
 
 
 def edge_distance(N, A_thetas, circle, out=None):
@@ -538,10 +723,13 @@ def case_iradon(ctx, model, case, with_model=True):
     N, A, kind, seeds = case["N"], case["A"], case["sino"], case["seeds"]
     thetas, filt, circle = case["thetas"], case["filter"], case["circle"]
     out, layout, tlay = case.get("out"), case.get("layout", "contig"), case.get("theta_layout", "f32")
+    form, device = case.get("form", "kw"), case.get("device")
     sinos = [make_sino(kind, A, N, s, thetas) for s in seeds]
     B = len(sinos)
     ctx.count()
-    ctx.dist[f"iradon:output_size={'default' if out is None else ('=N' if out == N else ('<N' if out < N else '>N'))}"] += 1
+    ctx.dist[f"iradon:call-form={form}"] += 1
+    ctx.dist[f"iradon:device-arg={device}"] += 1
+    ctx.dist[f"iradon:output_size={'default' if out is None else ('zero' if out == 0 else ('=N' if out == N else ('<N' if out < N else '>N')))}"] += 1
     ctx.dist[f"iradon:layout={layout}"] += 1
     ctx.dist[f"iradon:theta-layout={tlay}"] += 1
     ctx.dist[f"iradon:N={N}"] += 1
@@ -557,7 +745,7 @@ def case_iradon(ctx, model, case, with_model=True):
     key = "iradon-default-theta" if thetas is None else f"iradon-{parity(N)}-size{suffix}"
     arr = np.stack(sinos) if (B > 1 or case.get("keepdim", False)) else sinos[0]
     try:
-        tb = t_iradon(arr, thetas, filt, circle, out, layout, "f32" if thetas is None else tlay)
+        tb = t_iradon(arr, thetas, filt, circle, out, layout, "f32" if thetas is None else tlay, form, device)
     except Exception as e:  # noqa
         k2 = key if layout == "contig" and tlay == "f32" else f"iradon-raises-layout-{layout}-theta-{tlay}"
         ctx.pred_fail(k2, f"iradon_torch raised {err_name(e)}: {str(e)[:160]}", case, observed=err_name(e), required="a reconstruction")
@@ -574,18 +762,23 @@ def case_iradon(ctx, model, case, with_model=True):
         if d > TOL_PRED * scale(ref):
             ctx.pred_fail(key, f"iradon_torch(filter={filt!r}, circle={circle}) differs from skimage.transform.iradon by {d:.3g} "
                           f"(tolerance {TOL_PRED * scale(ref):.3g})", dict(case, sino_index=b), observed=worst(tb[b], ref), required="agreement")
-        if B > 1 or layout != "contig" or tlay != "f32":
-            single = t_iradon(sino, thetas, filt, circle, out)      # contiguous float32 2-D call
+        if B > 1 or layout != "contig" or tlay != "f32" or form != "kw" or device is not None:
+            single = t_iradon(sino, thetas, filt, circle, out)      # contiguous float32 2-D call, every argument by keyword
             db = maxdiff(tb[b], single)
             tolb = TOL_BATCH if not (layout.startswith("f64") or tlay == "f64") else TOL_PRED
             ctx.stat_max("iradon batched/layout-vs-single-contiguous rel", db / scale(single))
             if db > tolb * scale(single):
-                k2 = "iradon-batch" if layout == "contig" and tlay == "f32" else "iradon-layout"
-                ctx.pred_fail(k2, f"iradon_torch on a {layout} input (batch {B}, theta {tlay}) differs from the per-sinogram call on "
+                k2 = ("iradon-batch" if B > 1 else "iradon-call-form") if layout == "contig" and tlay == "f32" else "iradon-layout"
+                ctx.pred_fail(k2, f"iradon_torch on a {layout} input (batch {B}, theta {tlay}, call form {form}, device argument {device}) differs from the per-sinogram call on "
                               f"contiguous float32 tensors by {db:.3g}", dict(case, sino_index=b), observed=worst(tb[b], single), required="equal")
         if with_model and model.drv is not None and b == 0:
-            mt = model.iradon("torch", sino.astype(np.float64), thetas, filt, circle, out)
-            ms = model.iradon("sk", sino.astype(np.float64), thetas, filt, circle, out)
+            if case.get("via_e", False):       # the validated entry point of the model (iradonTorchE / iradonSkE)
+                mt = model.iradon_e("torch", sino.astype(np.float64), thetas, name_token(filt), circle, out)
+                ms = model.iradon_e("sk", sino.astype(np.float64), thetas, name_token(filt), circle, out)
+                ctx.dist["iradon:model-compared-through-validated-entry"] += 1
+            else:
+                mt = model.iradon("torch", sino.astype(np.float64), thetas, filt, circle, out)
+                ms = model.iradon("sk", sino.astype(np.float64), thetas, filt, circle, out)
             ctx.dist["iradon:model-compared"] += 1
             if isinstance(mt, dict) or isinstance(ms, dict):
                 ctx.disagree("iradon-error", case, [str(mt)[:80], str(ms)[:80]], "arrays")
@@ -612,16 +805,24 @@ def case_iradon(ctx, model, case, with_model=True):
     ctx.sample({"stream": "iradon", **case}, limit=6)
 
 
+UNKNOWN_NAMES = ["bogus", "", "Ramp", "hanning", "none", "RAMP", "shepp_logan", "hann ", 0, False]
+
+
 def case_iradon_errors(ctx, model, case):
-    """malformed stream: theta length mismatch / unknown filter -> ValueError in both ports"""
+    """malformed stream: wrong number of angles / unknown filter argument -> the port and scikit-image must both reject the call
+    (same exception class), and both models must give that outcome (iradonTorchE / iradonSkE)"""
     ctx.count()
     ctx.dist[f"iradon-malformed:{case['what']}"] += 1
     N, A = case["N"], case["A"]
+    circle, out = case.get("circle", True), case.get("out")
     sino = make_sino("random", A, N, 1)
-    thetas = [10.0] * (A + 1) if case["what"] == "theta-length" else [float(i) for i in range(A)]
-    filt = "bogus" if case["what"] == "unknown-filter" else "ramp"
+    if case["what"] == "theta-length":
+        thetas = [float(10 + 3 * i) for i in range(max(0, A + case.get("delta", 1)))]
+    else:
+        thetas = None if case.get("default_theta") else [float(7 * i) for i in range(A)]
+    filt = case.get("name", "bogus") if case["what"] == "unknown-filter" else case.get("good_name", "ramp")
     outs = []
-    for f in (lambda: t_iradon(sino, thetas, filt, True), lambda: s_iradon(sino, thetas, filt, True)):
+    for f in (lambda: t_iradon(sino, thetas, filt, circle, out), lambda: s_iradon(sino, thetas, filt, circle, out)):
         try:
             f()
             outs.append("ok")
@@ -630,6 +831,12 @@ def case_iradon_errors(ctx, model, case):
     if outs[0] != outs[1]:
         ctx.pred_fail("iradon-error-kind", f"iradon_torch and skimage.iradon disagree on rejecting a malformed call ({case['what']})",
                       case, observed=outs[0], required=outs[1])
+    if model.drv is not None:
+        for alg, impl in (("torch", outs[0]), ("sk", outs[1])):
+            m = model.iradon_e(alg, sino.astype(np.float64), thetas, name_token(filt), circle, out)
+            mo = m.get("err") if isinstance(m, dict) else "ok"
+            if mo != impl:
+                ctx.disagree(f"iradon-outcome-{alg}", case, mo, impl, note="outcome class of a malformed call")
 
 
 def case_sirt(ctx, model, case):
@@ -675,6 +882,205 @@ def case_sirt(ctx, model, case):
 
 
 # ----------------------------------------------------------------------------------------------
+# call histories: valid calls, rejected calls, scribbling on what was handed out
+
+class HistCtx:
+    """ctx seen by the case functions inside a history: failures are reported with the WHOLE history as the case (the failing
+    input is the sequence of calls, not the last call alone)"""
+
+    def __init__(self, ctx, hist, i):
+        self.__dict__["_ctx"], self.__dict__["_hist"], self.__dict__["_i"] = ctx, hist, i
+
+    def __getattr__(self, name):
+        return getattr(self._ctx, name)
+
+    def _where(self):
+        ops = self._hist["ops"]
+        before = [f"{k}:{o['what']}" if o["kind"] == "reject" else o["kind"] for k, o in enumerate(ops[:self._i])]
+        return f"[call {self._i} of a history of {len(ops)} calls in one process; before it: {', '.join(before) or 'nothing'}] "
+
+    def pred_fail(self, key, what, case, observed=None, required=None):
+        extra = {k: case[k] for k in ("image_index", "sino_index") if k in case}
+        self._ctx.pred_fail(key + "-in-history", self._where() + what, dict(self._hist, at=self._i, **extra), observed=observed, required=required)
+
+    def disagree(self, stream, case, model, impl, note=""):
+        self._ctx.disagree(stream + "-in-history", dict(self._hist, at=self._i), model, impl, note=self._where() + note)
+
+    def sample(self, case, limit=4):
+        pass
+
+
+REJECTS = ["iradon-unknown-filter", "iradon-theta-length", "iradon-negative-output-size", "iradon-fractional-output-size",
+           "iradon-bad-ndim", "radon-integer-image", "radon-theta-2d", "radon-theta-list", "radon-bad-ndim",
+           "filter-odd-size", "filter-unknown-name", "filter-size-zero"]
+
+
+def run_reject(ctx, op):
+    """a call the port is expected to reject (bad argument, failing validation, an exception from a callee) — some of them only
+    after it has done part of its work.  No predicate: what matters is that the caller carries on afterwards."""
+    torch = _torch()
+    what, N, A, B = op["what"], op.get("N", 6), op.get("A", 2), op.get("B", 1)
+    sino = np.stack([make_sino("random", A, N, op.get("seed", 1) + b) for b in range(B)])
+    sino_t = torch.tensor(sino if B > 1 else sino[0])
+    th = theta_tensor([float(np.float32(11.0 + 37.0 * i)) for i in range(A)])
+    img_t = torch.tensor(np.stack([make_image("random", N, op.get("seed", 1) + b, masked=False) for b in range(B)]))
+    m = radon_mod()
+    calls = {
+        "iradon-unknown-filter": lambda: m.iradon_torch(sino_t, theta=th, filter_name=op.get("name", "hanning"), circle=op.get("circle", True)),
+        "iradon-theta-length": lambda: m.iradon_torch(sino_t, theta=theta_tensor([1.0] * (A + 1)), circle=op.get("circle", True)),
+        "iradon-negative-output-size": lambda: m.iradon_torch(sino_t, theta=th, output_size=-3, filter_name=op.get("good_name", "ramp"), circle=op.get("circle", True)),
+        "iradon-fractional-output-size": lambda: m.iradon_torch(sino_t, theta=th, output_size=N + 0.5, circle=op.get("circle", True)),
+        "iradon-bad-ndim": lambda: m.iradon_torch(sino_t.reshape(-1), theta=th),
+        "radon-integer-image": lambda: m.radon_torch((img_t * 8).to(torch.int64), theta=th),
+        "radon-theta-2d": lambda: m.radon_torch(img_t, theta=torch.zeros(A, 2)),
+        "radon-theta-list": lambda: m.radon_torch(img_t, theta=[0.0, 45.0]),
+        "radon-bad-ndim": lambda: m.radon_torch(img_t.reshape(-1), theta=th),
+        "filter-odd-size": lambda: m.get_fourier_filter_torch(op.get("size", 64) + 1, op.get("good_name", "ramp")),
+        "filter-unknown-name": lambda: m.get_fourier_filter_torch(op.get("size", 64), op.get("name", "hanning")),
+        "filter-size-zero": lambda: m.get_fourier_filter_torch(0, op.get("good_name", "ramp")),
+    }
+    try:
+        calls[what]()
+        outcome = "returned"
+    except Exception as e:  # noqa
+        outcome = "raised " + err_name(e)
+    ctx.dist[f"history:rejected-call {what} -> {outcome}"] += 1
+    return outcome
+
+
+def plain_call(op, scribble):
+    """the primary call of a valid history op on the module under test, result as float64 array.  With `scribble` the caller then
+    overwrites, in place, what it was handed (the returned tensor) and what it passed in (its own input tensors) — it owns both."""
+    torch = _torch()
+    k = op["kind"]
+    ins = []
+    if k == "filter":
+        out = t_filter_raw(op["size"], op["name"], op.get("form", "kw"), op.get("device"), op.get("dtype"))
+    elif k == "radon":
+        imgs = [make_image(op["img"], op["N"], sd, masked=op.get("masked", True)) for sd in op["seeds"]]
+        arr = np.stack(imgs) if (len(imgs) > 1 or op.get("keepdim", False)) else imgs[0]
+        ins = [to_layout(arr, op.get("layout", "contig")), theta_tensor(op["thetas"], op.get("theta_layout", "f32"))]
+        out = t_radon_raw(ins[0], ins[1], op.get("form", "kw"), op.get("device"))
+    elif k == "radon-rect":
+        ins = [torch.tensor(make_rect(op["img"], op["H"], op["W"], op["seed"]))]
+        th = None if op["thetas"] is None else theta_tensor(op["thetas"], op.get("theta_layout", "f32"))
+        ins.append(th)
+        out = t_radon_raw(ins[0], th, op.get("form", "kw"), op.get("device"))
+    elif k == "iradon":
+        sinos = [make_sino(op["sino"], op["A"], op["N"], sd, op["thetas"]) for sd in op["seeds"]]
+        arr = np.stack(sinos) if (len(sinos) > 1 or op.get("keepdim", False)) else sinos[0]
+        th = None if op["thetas"] is None else theta_tensor(op["thetas"], op.get("theta_layout", "f32"))
+        ins = [to_layout(arr, op.get("layout", "contig")), th]
+        out = t_iradon_raw(ins[0], th, op["filter"], op["circle"], op.get("out"), op.get("form", "kw"), op.get("device"))
+    else:
+        raise ValueError(k)
+    res = out.detach().cpu().numpy().astype(np.float64).copy()
+    if scribble:
+        with torch.no_grad():
+            out.fill_(float("nan"))
+            for t in ins:
+                if t is not None:
+                    t.fill_(123)
+    return res
+
+
+def case_history(ctx, model, case):
+    """a HISTORY of public calls in one process on a fresh instance of the module: valid calls (each one checked exactly like a
+    single call — scikit-image agreement, batched = single, linearity, model — AND against the same call on another fresh
+    instance), calls that are rejected part-way, and a caller that overwrites the tensors it was handed."""
+    ops = case["ops"]
+    ctx.count()
+    ctx.dist[f"history:length={len(ops)}"] += 1
+    ctx.dist[f"history:rejected-calls={sum(1 for o in ops if o['kind'] == 'reject')}"] += 1
+    ctx.mark(("history", tuple(o["what"] if o["kind"] == "reject" else o["kind"] for o in ops)))
+    mod = fresh_module()
+    if mod is None:
+        ctx.dist["history:fresh-module-instance-unavailable (imported module used; replay depends on the process)"] += 1
+    old = _MOD[0]
+    _MOD[0] = mod
+    try:
+        seen_reject = False
+        for i, op in enumerate(ops):
+            if op["kind"] == "reject":
+                run_reject(ctx, op)
+                seen_reject = True
+                continue
+            h = HistCtx(ctx, case, i)
+            ctx.dist[f"history:valid-call {op['kind']} {'after' if seen_reject else 'before'} a rejected call"] += 1
+            # (a) the call inside the history vs the same call on a module instance without history
+            try:
+                got = plain_call(op, case.get("scribble", True))
+            except Exception as e:  # noqa
+                h.pred_fail(f"{op['kind']}-raises", f"a valid {op['kind']} call raised {err_name(e)}: {str(e)[:160]}", op,
+                            observed=err_name(e), required="a result")
+                continue
+            ref_mod = fresh_module()
+            if ref_mod is not None:
+                _MOD[0] = ref_mod
+                try:
+                    want = plain_call(op, False)
+                finally:
+                    _MOD[0] = mod
+                d = maxdiff(got, want)
+                ctx.stat_max("history: call in history vs same call on a fresh module instance (rel)", d / scale(want) if d != float("inf") else 1.0)
+                if d > TOL_BATCH * scale(want):
+                    h.disagree(f"stateless-{op['kind']}", op, {"history-free": worst(got, want).get("required")}, {"in-history": worst(got, want)},
+                               note=f"the result of a call depends on the calls made before it (maxdiff {d:.3g}); the model has no state")
+            # (b) the call inside the history checked like any single call (reference: scikit-image)
+            dispatch(h, model, op, with_model=bool(op.get("with_model", False)))
+    finally:
+        _MOD[0] = old
+    ctx.sample({"stream": "history", "ops": [o["what"] if o["kind"] == "reject" else o["kind"] for o in ops]}, limit=9)
+
+
+def gen_history(ctx, rng):
+    """4-8 calls.  Batch size, number of angles and the padded-size family are drawn once per history and re-used by most
+    calls (a stale buffer / cache entry is only visible to a later call that maps to the same key); geometry (width, circle,
+    output size), filter and call form vary from call to call."""
+    B0, A0 = rng.weighted([(1, 5), (2, 3)]), rng.randint(1, 3)
+    big = rng.chance(0.15)          # padded size 128 family instead of 64
+    ops = []
+    n_ops = rng.randint(4, 8)
+    model_budget = 1
+    for _ in range(n_ops):
+        same = rng.chance(0.8)
+        B, A = (B0, A0) if same else (rng.weighted([(1, 5), (2, 3)]), rng.randint(1, 3))
+        circle = rng.chance(0.5)
+        if big:
+            N = rng.randint(23, 45) if circle else rng.randint(33, 48)
+        else:
+            N = rng.randint(1, 22) if circle else rng.randint(2, 32)
+        r = rng.random()
+        if r < 0.33:
+            what = rng.weighted([("iradon-unknown-filter", 6), ("iradon-theta-length", 2), ("iradon-negative-output-size", 3),
+                                 ("iradon-fractional-output-size", 2), ("iradon-bad-ndim", 1), ("radon-integer-image", 2),
+                                 ("radon-theta-2d", 2), ("radon-theta-list", 1), ("radon-bad-ndim", 1),
+                                 ("filter-odd-size", 1), ("filter-unknown-name", 2), ("filter-size-zero", 1)])
+            ops.append({"kind": "reject", "what": what, "N": max(2, min(N, 33)) if what.startswith("radon") else N, "A": A, "B": B,
+                        "circle": circle, "seed": rng.next() % 1000, "name": rng.choice([n for n in UNKNOWN_NAMES if isinstance(n, str)]),
+                        "good_name": rng.choice(FILTERS[:5]), "size": 128 if big else 64})
+        elif r < 0.75:
+            c = gen_iradon_case(ctx, rng, False, force={"N": N, "A": A, "B": B, "circle": circle})
+            c["layout"] = rng.weighted([("contig", 6), ("transposed", 1), ("f64", 1)])
+            if model_budget > 0 and c["N"] <= 12 and c["A"] <= 2 and ops and rng.chance(0.5):
+                c["with_model"], c["via_e"] = True, rng.chance(0.5)
+                model_budget -= 1
+            ops.append(c)
+        elif r < 0.9:
+            c = gen_radon_case(rng, False)
+            c["N"] = max(2, min(N, 24))
+            c["thetas"] = make_thetas(rng, A)
+            c["seeds"] = c["seeds"][:B] + [rng.next() % (1 << 30) for _ in range(B - len(c["seeds"]))]
+            ops.append(c)
+        else:
+            ops.append({"kind": "filter", "size": rng.choice([64, 128, 64, 128, 256, 2 * rng.randint(1, 40)]), "name": rng.choice(FILTERS),
+                        "form": rng.choice(FORMS), "model": False})
+    if rng.chance(0.3) and any(o["kind"] != "reject" for o in ops):      # the same valid call again (a cache-hit path)
+        ops.append(dict(rng.choice([o for o in ops if o["kind"] != "reject"])))
+    return {"kind": "history", "ops": ops, "scribble": rng.chance(0.7)}
+
+
+# ----------------------------------------------------------------------------------------------
 
 def gen_size(rng):
     return rng.weighted([(rng.randint(2, 4), 1), (rng.randint(5, 33), 10), (rng.choice([8, 16, 24, 32, 23, 25, 22, 33]), 3)])
@@ -687,20 +1093,23 @@ def gen_radon_case(rng, model_cost=True):
     return {"kind": "radon", "N": N, "img": rng.choice(IMG_KINDS), "seeds": [rng.next() % (1 << 30) for _ in range(B)],
             "thetas": make_thetas(rng, A), "masked": rng.chance(0.5),
             "layout": rng.weighted([("contig", 4), ("transposed", 2), ("permuted", 2), ("strided", 1), ("f64", 1), ("f64-transposed", 1)]),
-            "theta_layout": rng.weighted([("f32", 6), ("f64", 1), ("strided", 1)]), "keepdim": rng.chance(0.5),
+            "theta_layout": rng.weighted([("f32", 6), ("f64", 1), ("strided", 1), ("i64", 1)]), "keepdim": rng.chance(0.5),
+            "form": rng.weighted([("kw", 3), ("min", 1), ("pos", 1)]), "device": rng.weighted([(None, 4), ("cpu", 1), ("torch.device", 1)]),
             "coef": [float(rng.choice([2.0, -1.0, 0.5, 3.0])), float(rng.choice([-0.5, 1.0, 4.0, -2.0]))]}
 
 
-def gen_iradon_case(ctx, rng, model_cost=True):
-    N = gen_size(rng)
+def gen_iradon_case(ctx, rng, model_cost=True, force=None):
+    force = force or {}
+    N = gen_size(rng) if not rng.chance(0.03) else 1          # a one-pixel detector is a valid (degenerate) sinogram
     if model_cost and N > 22 and rng.chance(0.6):
         N = rng.randint(5, 22)      # padded size 128 is ~4x the model cost; keep most model cases at 64
     A = rng.randint(1, 3 if model_cost else 8)
     B = rng.weighted([(1, 5), (2, 3), (3, 1)])
     circle = rng.chance(0.7)
+    N, A, B, circle = force.get("N", N), force.get("A", A), force.get("B", B), force.get("circle", circle)
     default_theta = rng.chance(0.12)
     # optional argument of the skimage-compatible interface: explicit output_size (smaller, equal, larger than the width)
-    out = rng.weighted([(None, 5), (N, 1), (max(1, N - rng.randint(1, 6)), 2), (N + rng.randint(1, 8), 2), (2 * N, 1)])
+    out = rng.weighted([(None, 5), (N, 1), (max(1, N - rng.randint(1, 6)), 2), (N + rng.randint(1, 8), 2), (2 * N, 1), (0, 0.25)])
     rejected = False
     thetas = None
     for k in range(40):
@@ -722,13 +1131,32 @@ def gen_iradon_case(ctx, rng, model_cost=True):
     return {"kind": "iradon", "N": N, "A": A, "sino": rng.choice(SINO_KINDS), "seeds": [rng.next() % (1 << 30) for _ in range(B)],
             "thetas": thetas, "filter": rng.choice(FILTERS), "circle": circle, "out": out,
             "layout": rng.weighted([("contig", 5), ("transposed", 2), ("permuted", 1), ("strided", 1), ("f64", 1), ("f64-transposed", 1)]),
-            "theta_layout": rng.weighted([("f32", 6), ("f64", 1), ("strided", 1)]), "keepdim": rng.chance(0.5),
+            "theta_layout": rng.weighted([("f32", 6), ("f64", 1), ("strided", 1), ("i64", 1)]), "keepdim": rng.chance(0.5),
+            "form": rng.weighted([("kw", 3), ("min", 2), ("pos", 1)]), "device": rng.weighted([(None, 4), ("cpu", 1), ("torch.device", 1)]),
+            "via_e": rng.chance(0.5),
             "coef": [float(rng.choice([2.0, -1.0, 0.5, 3.0])), float(rng.choice([-0.5, 1.0, 4.0, -2.0]))]}
 
 
 def gen_filter_case(rng):
-    size = rng.weighted([(rng.choice([64, 128, 256]), 4), (2 * rng.randint(1, 48), 4), (rng.choice([2, 4, 6, 8, 10, 14]), 1), (2 * rng.randint(0, 20) + 1, 1)])
-    return {"kind": "filter", "size": size, "name": rng.choice(FILTERS)}
+    size = rng.weighted([(rng.choice([64, 128, 256]), 4), (2 * rng.randint(1, 48), 4), (rng.choice([2, 4, 6, 8, 10, 14]), 1), (2 * rng.randint(0, 20) + 1, 1),
+                         (0, 0.2)])
+    name = rng.choice(FILTERS) if not rng.chance(0.06) else rng.choice(UNKNOWN_NAMES)
+    return {"kind": "filter", "size": size, "name": name, "form": rng.weighted([("kw", 3), ("min", 2), ("pos", 1)]),
+            "device": rng.weighted([(None, 4), ("cpu", 1), ("torch.device", 1)]), "dtype": rng.weighted([(None, 5), ("float32", 1), ("float64", 2)])}
+
+
+def gen_rect_case(rng, model_cost=True):
+    """image shape H x W: tall / wide / square, even and odd excess over the shorter side, even and odd crops; given angles or the
+    default 180 (small images then: 180 angles)"""
+    default_theta = rng.chance(0.25)
+    hi = 8 if (default_theta and model_cost) else (14 if model_cost else 24)
+    N = rng.randint(2, hi)
+    e = rng.weighted([(0, 2), (1, 3), (2, 2), (3, 2), (rng.randint(4, 9), 2)])
+    H, W = (N + e, N) if rng.chance(0.5) else (N, N + e)
+    return {"kind": "radon-rect", "H": H, "W": W, "img": rng.choice(["random", "int", "ones", "ramp"]), "seed": rng.next() % (1 << 30),
+            "thetas": None if default_theta else make_thetas(rng, rng.randint(1, 3 if model_cost else 6)),
+            "theta_layout": rng.weighted([("f32", 5), ("f64", 1), ("i64", 1)]),
+            "form": rng.weighted([("kw", 2), ("min", 2), ("pos", 1)]), "device": rng.weighted([(None, 4), ("cpu", 1)])}
 
 
 def dispatch(ctx, model, case, with_model=True):
@@ -745,6 +1173,10 @@ def dispatch(ctx, model, case, with_model=True):
         case_iradon_errors(ctx, model, case)
     elif k == "sirt":
         case_sirt(ctx, model, case)
+    elif k == "radon-rect":
+        case_radon_rect(ctx, model, case, with_model)
+    elif k == "history":
+        case_history(ctx, model, case)
     else:
         raise ValueError(k)
 
@@ -788,6 +1220,40 @@ WITNESSES = [
      "layout": "transposed"},
     # default angle set
     {"kind": "iradon", "N": 9, "A": 4, "sino": "random", "seeds": [5], "thetas": None, "filter": "ramp", "circle": True},
+    # growth 5 -- filter_size_zero_counterexample (port: RuntimeError in torch.arange, scikit-image: IndexError), unknown names
+    {"kind": "filter", "size": 0, "name": "ramp"},
+    {"kind": "filter", "size": 0, "name": None},
+    {"kind": "filter", "size": 8, "name": "hanning"},
+    {"kind": "filter", "size": 8, "name": "none"},
+    {"kind": "filter", "size": 64, "name": "hamming", "form": "pos", "dtype": "float64"},
+    {"kind": "filter", "size": 64, "name": "ramp", "form": "min"},
+    # crop_mask_centre_counterexample: 7 x 4 (odd excess, even crop: the disc centre is one pixel before the rotation centre), and the
+    # other excess / parity classes; the default angle set of radon
+    {"kind": "radon-rect", "H": 7, "W": 4, "img": "int", "seed": 3, "thetas": [0.0, 33.0, 90.0]},
+    {"kind": "radon-rect", "H": 4, "W": 7, "img": "random", "seed": 4, "thetas": [0.0, 120.5]},
+    {"kind": "radon-rect", "H": 9, "W": 5, "img": "random", "seed": 5, "thetas": [45.0], "form": "pos"},
+    {"kind": "radon-rect", "H": 6, "W": 9, "img": "ramp", "seed": 6, "thetas": [10.0, 170.0]},
+    {"kind": "radon-rect", "H": 5, "W": 5, "img": "random", "seed": 7, "thetas": None, "form": "min"},
+    {"kind": "radon-rect", "H": 3, "W": 2, "img": "int", "seed": 8, "thetas": None},
+    # a one-pixel detector, an empty reconstruction
+    {"kind": "iradon", "N": 1, "A": 3, "sino": "int", "seeds": [9], "thetas": [10.0, 50.0, 100.0], "filter": "hann", "circle": True, "via_e": True},
+    {"kind": "iradon", "N": 6, "A": 2, "sino": "int", "seeds": [10], "thetas": [10.0, 50.0], "filter": "ramp", "circle": True, "out": 0, "via_e": True},
+    # every argument left at its default / passed positionally
+    {"kind": "iradon", "N": 10, "A": 3, "sino": "random", "seeds": [11], "thetas": None, "filter": "ramp", "circle": True, "form": "min"},
+    {"kind": "iradon", "N": 10, "A": 2, "sino": "random", "seeds": [12], "thetas": [15.0, 95.0], "filter": "cosine", "circle": False, "out": 9, "form": "pos",
+     "device": "cpu"},
+    # session_agree: rejected calls (unknown filter after the padding step, bad output size after the filtering step) between valid
+    # calls that share batch size, number of angles and padded size but not the detector column range
+    {"kind": "history", "scribble": True, "ops": [
+        {"kind": "filter", "size": 64, "name": "hann", "form": "kw", "model": False},
+        {"kind": "reject", "what": "iradon-unknown-filter", "N": 14, "A": 2, "B": 1, "circle": True, "seed": 5, "name": "hanning"},
+        {"kind": "iradon", "N": 14, "A": 2, "sino": "random", "seeds": [77], "thetas": [33.0, 101.5], "filter": "hann", "circle": False, "out": None},
+        {"kind": "reject", "what": "iradon-negative-output-size", "N": 9, "A": 2, "B": 1, "circle": False, "seed": 6, "good_name": "cosine"},
+        {"kind": "reject", "what": "radon-theta-2d", "N": 9, "A": 2, "B": 1, "seed": 7},
+        {"kind": "iradon", "N": 12, "A": 2, "sino": "random", "seeds": [78], "thetas": [20.0, 110.0], "filter": "ramp", "circle": True, "out": None,
+         "with_model": True, "via_e": True},
+        {"kind": "radon", "N": 9, "img": "random", "seeds": [79], "thetas": [20.0, 110.0], "masked": False},
+        {"kind": "filter", "size": 64, "name": "hann", "form": "kw", "model": False}]},
 ]
 
 
@@ -834,11 +1300,24 @@ def run(ctx):
                                   "layout": rng.choice(["contig", "permuted", "transposed"]),
                                   "seeds": [rng.next() % (1 << 30) for _ in range(D)], "thetas": make_thetas(rng, rng.randint(1, 6)),
                                   "filter": rng.choice(FILTERS[:5])})
-        # --- malformed
-        for i in range(ctx.n(6, 30)):
+        # --- malformed calls: outcome classes, port vs scikit-image vs both models
+        for i in range(ctx.n(14, 80)):
             rng = ctx.rng.fork(7000 + i)
-            dispatch(ctx, model, {"kind": "iradon-malformed", "N": rng.randint(4, 12), "A": rng.randint(1, 4),
-                                  "what": rng.choice(["theta-length", "unknown-filter"])})
+            dispatch(ctx, model, {"kind": "iradon-malformed", "N": rng.randint(1, 12), "A": rng.randint(1, 4),
+                                  "what": rng.choice(["theta-length", "unknown-filter"]), "delta": rng.choice([1, -1, 2]),
+                                  "name": rng.choice(UNKNOWN_NAMES), "good_name": rng.choice(FILTERS), "circle": rng.chance(0.6),
+                                  "out": rng.choice([None, None, 5]), "default_theta": rng.chance(0.3)})
+        # --- images of any shape (mask on the full grid, crop to the inscribed square) and the default angle set
+        for i in range(ctx.n(36, 300)):
+            rng = ctx.rng.fork(9000 + i)
+            dispatch(ctx, model, gen_rect_case(rng, True), True)
+        for i in range(ctx.n(40, 500)):
+            rng = ctx.rng.fork(9500 + i)
+            dispatch(ctx, model, gen_rect_case(rng, False), False)
+        # --- histories of calls in one process (valid, rejected part-way, caller overwrites what it was handed)
+        for i in range(ctx.n(45, 450)):
+            rng = ctx.rng.fork(10000 + i)
+            dispatch(ctx, model, gen_history(ctx, rng))
     finally:
         model.close()
     ctx.extra["tolerances"] = {"model-vs-torch (float32 rule)": TOL32, "model-vs-skimage (float64)": TOL64, "torch-vs-skimage": TOL_PRED,
@@ -853,7 +1332,7 @@ def replay(ctx, rep):
         case = ds[0]["case"] if ds else None
     if case is None:
         return True
-    case = {k: v for k, v in case.items() if k not in ("image_index", "sino_index", "stream", "slice")}
+    case = {k: v for k, v in case.items() if k not in ("image_index", "sino_index", "stream", "slice", "at")}
     model = Model()
     try:
         dispatch(ctx, model, case, True)
